@@ -514,6 +514,30 @@ func main() {
 				}
 			}
 		}})
+	ck.Domains = append(ck.Domains, &drv.Domain{Name: "signature-length-mod-2^32", Size: 3, Chunk: 1,
+		Desc: "a valid signature followed by 2^32 zero bytes (private no-reserve mapping; only the first page is committed), for 3 hash functions: a changed signature, must not be accepted — the size checks must look at the whole length, not at its low 32 bits (a refusal is fine)",
+		Run: func(c *drv.Ctx, lo, hi int64) {
+			for i := lo; i < hi; i++ {
+				c.At(i)
+				b := getBase(4, int(i), uint32([]int{0, 15, 6}[i]), c.Seed)
+				giant, release := drv.GiantWithPrefix(1<<32+uint64(len(b.sig)), b.sig)
+				if giant == nil {
+					c.Cap("a 4 GiB no-reserve mapping was refused: signature-length-mod-2^32 skipped")
+					c.Outcome("skipped")
+					continue
+				}
+				lib := libVerify(b.msg, giant, b.pk, 0)
+				lib16 := libVerify(b.msg, giant, b.pk, 16)
+				release()
+				c.Eval(2)
+				c.Nontrivial(2)
+				c.Outcome("lib=" + short12(lib))
+				if lib == "true" || lib16 == "true" {
+					c.Fail(i, "signature-with-2^32-trailing-bytes-accepted", map[string]any{"hash": i, "signature_length": uint64(1<<32) + uint64(len(b.sig)), "valid_signature_length": len(b.sig),
+						"message": drv.FullHex(b.msg), "public_key": drv.FullHex(b.pk[:]), "expected": "not accepted (false or an explicit refusal)", "observed": lib, "observed_customw16": lib16})
+				}
+			}
+		}})
 	// descriptor sweep
 	ck.Domains = append(ck.Domains, &drv.Domain{Name: "desc-sweep", Size: 65536 * 2 * 3, Chunk: 256, Desc: "pk descriptor (byte0,byte1) over all 65536 values x {honest root, all-zero root + zero seed} x base hash function; signature length matched to the declared height",
 		Run: func(c *drv.Ctx, lo, hi int64) {
